@@ -389,6 +389,55 @@ func entries() []entry {
 			err := wsutil.ControlHandler{Src: bytes.NewReader(c.payload), Dst: d, State: c.st(), DisableSrcCiphering: true}.Handle(h)
 			return d.Bytes(), err
 		}},
+		{"ReadClient/ServerMessage(msg[:0])+HandleControlMessage/between-fragments", func(c ctlCase) ([]byte, error) {
+			// the receive loop of example/autobahn: one message slice recycled across calls; an earlier
+			// large fragmented message has left its payload in the slice's spare capacity
+			mk := func(op byte, fin bool, p []byte) []byte {
+				return refmodel.Frame{H: refmodel.Hdr{Fin: fin, Op: op, Masked: c.side == streams.Server, Mask: srcMask}, Payload: p}.Wire()
+			}
+			big := bytes.Repeat([]byte("0123456789"), 200)
+			data := append(mk(2, false, big[:1000]), mk(0, true, big[1000:])...)
+			data = append(data, mk(2, false, []byte("ab"))...)
+			data = append(data, mk(c.op, true, c.payload)...)
+			data = append(data, mk(0, true, []byte("cd"))...)
+			src := bytes.NewReader(data)
+			d := env.NewDst()
+			read := func(m []wsutil.Message) ([]wsutil.Message, error) {
+				if c.side == streams.Server {
+					return wsutil.ReadClientMessage(src, m)
+				}
+				return wsutil.ReadServerMessage(src, m)
+			}
+			msg, err := read(nil)
+			if err != nil || len(msg) != 1 || !bytes.Equal(msg[0].Payload, big) {
+				return nil, fmt.Errorf("harness: first message: %v", err)
+			}
+			msg, err = read(msg[:0])
+			if err != nil {
+				return d.Bytes(), err
+			}
+			var herr error
+			var dataSeen []byte
+			for _, m := range msg {
+				if !m.OpCode.IsControl() {
+					dataSeen = append(dataSeen, m.Payload...)
+					continue
+				}
+				var e error
+				if c.side == streams.Server {
+					e = wsutil.HandleClientControlMessage(d, m)
+				} else {
+					e = wsutil.HandleServerControlMessage(d, m)
+				}
+				if e != nil {
+					herr = e
+				}
+			}
+			if string(dataSeen) != "abcd" {
+				return nil, fmt.Errorf("harness: message payload %q", dataSeen)
+			}
+			return d.Bytes(), herr
+		}},
 		{"Handle/source-is-the-connection", func(c ctlCase) ([]byte, error) {
 			// "The intentional way to use it is to read the next frame header from the connection ...
 			// and pass it to Handle()": the source is the connection itself, on which the next frame
